@@ -2,7 +2,7 @@
 FUNCS = ["HostSimpleRequirement.match", "HostSimpleRequirement._add", "HostSimpleRequirement.__and__",
          "HostSimpleRequirement.__mul__", "RequirementUnion.match"]
 LEVEL = "proof"
-LEVEL_TEXT = 'Deductive: match != None implies enough GPUs, each with enough memory, CPU memory and cores, duration allowed; result carries host priority; __and__/__mul__ write nothing reachable before the call and return the field-wise max / merged GPU lists; RequirementUnion.match returns the first matching alternative.'
+LEVEL_TEXT = 'Deductive: match != None implies enough GPUs, each with enough memory, CPU memory and cores, duration allowed; result carries host priority; __and__/__mul__ write nothing reachable before the call and return the field-wise max / merged GPU lists; RequirementUnion.match returns the first matching alternative. For __mul__ the accumulation (k copies after k-1 iterations) is proved as the loop invariant; the final length count * L after the sort is left to the bounded suite (the nonlinear query was unstable).'
 TRUSTED = ['text specification = programmatic one (arpeggio parser) is outside the verifier', "float('-inf') modelled as -1e30", 'z3 5.1 / cvc5 1.0.3 / z3 4.8.12 and the VC generator pyvc (validated by seeded changes, pre-fix replays and the CPython replay of counterexamples; not verified)', 'Python semantics of DESIGN 2.3 (mathematical ints and reals, left-to-right evaluation, no monkey-patching, assert not compiled out)', 'heap typing: declared field/parameter classes are assumed on reads and checked on writes in the functions under contract', "contracts of externals and of callees outside the list are assumed; every ('ASSUME', ...) clause is listed in DESIGN section 11"]
 LEVEL_NOTE = "text specification = programmatic one (arpeggio parser) is outside the verifier; float('-inf') modelled as -1e30"
 from bounded.specs import run_c18
